@@ -45,8 +45,10 @@ func (x rngReader) Read(p []byte) (int, error) { return x.r.Read(p) }
 
 var bigOne = big.NewInt(1)
 
-func genPrime(r *rand.Rand, bits int) *big.Int {
-	e := big.NewInt(65537)
+func genPrime(r *rand.Rand, bits int) *big.Int { return genPrimeE(r, bits, 65537) }
+
+func genPrimeE(r *rand.Rand, bits int, exp int64) *big.Int {
+	e := big.NewInt(exp)
 	buf := make([]byte, (bits+7)/8)
 	for {
 		r.Read(buf)
@@ -68,10 +70,13 @@ func genPrime(r *rand.Rand, bits int) *big.Int {
 	}
 }
 
-func genRSA(r *rand.Rand, bits int) *rsa.PrivateKey {
+func genRSA(r *rand.Rand, bits int) *rsa.PrivateKey { return genRSAE(r, bits, 65537) }
+
+// genRSAE: a key pair with the given public exponent.
+func genRSAE(r *rand.Rand, bits int, exp int64) *rsa.PrivateKey {
 	for {
-		p := genPrime(r, (bits+1)/2)
-		q := genPrime(r, bits-(bits+1)/2)
+		p := genPrimeE(r, (bits+1)/2, exp)
+		q := genPrimeE(r, bits-(bits+1)/2, exp)
 		if p.Cmp(q) == 0 {
 			continue
 		}
@@ -80,12 +85,14 @@ func genRSA(r *rand.Rand, bits int) *rsa.PrivateKey {
 			continue
 		}
 		phi := new(big.Int).Mul(new(big.Int).Sub(p, bigOne), new(big.Int).Sub(q, bigOne))
-		d := new(big.Int).ModInverse(big.NewInt(65537), phi)
+		d := new(big.Int).ModInverse(big.NewInt(exp), phi)
 		if d == nil {
 			continue
 		}
-		k := &rsa.PrivateKey{PublicKey: rsa.PublicKey{N: n, E: 65537}, D: d, Primes: []*big.Int{p, q}}
-		k.Precompute()
+		k := &rsa.PrivateKey{PublicKey: rsa.PublicKey{N: n, E: int(exp)}, D: d, Primes: []*big.Int{p, q}}
+		if exp == 65537 {
+			k.Precompute()
+		}
 		return k
 	}
 }
@@ -502,6 +509,24 @@ func run(c *core.Ctx) {
 			for _, hn := range digestOrder {
 				emitEM("every-label-bare-digest-block", d, label, body, buildEM(k, nil, digestsOf(body)[hn]), fmt.Sprintf("label %d, block 00 01 FF..FF 00 || %s digest, no identifier", label, hn))
 			}
+		}
+	}
+
+	// (2') device keys with other public exponents (3, 17, beyond 32 bits): a valid block under each hash, the
+	// encoded message itself presented as the "signature" (valid only if the exponent were 1), and a damaged block
+	for _, exp := range []int64{3, 17, 1<<32 + 1, 1<<33 + 1<<32 + 1, 1<<40 + 65537} {
+		k := genRSAE(r, 1024, exp)
+		d := &device{fmt.Sprintf("rsa1024-exponent-%d-by-root", exp), devCert(fmt.Sprintf("f9 rsa e=%d", exp), &k.PublicKey, root, rootKey, okNB, okNA), k, true}
+		kk := (k.N.BitLen() + 7) / 8
+		for hi := range hashes {
+			hs := &hashes[hi]
+			body := newBody()
+			em := buildEM(kk, hs.withNul, digestsOf(body)[hs.name])
+			emitEM("exponent-valid", d, int(hs.rsaAlgo), body, em, fmt.Sprintf("e=%d, valid %s block", exp, hs.name))
+			emit("exponent-block-as-signature", d, int(hs.rsaAlgo), body, em, fmt.Sprintf("e=%d, the encoded message itself as the signature value", exp))
+			bad := append([]byte(nil), em...)
+			bad[len(bad)-1] ^= 1
+			emitEM("exponent-damaged", d, int(hs.rsaAlgo), body, bad, fmt.Sprintf("e=%d, last digest bit flipped", exp))
 		}
 	}
 
